@@ -42,6 +42,8 @@ pub enum Script {
     /// the application drops the call future once it has been polled k times and is pending
     /// (k = 0: before its first poll)
     AbandonAfter(u32),
+    /// the application drops the call future once its request has been written to the transport
+    AbandonOnceSent,
 }
 
 #[derive(Clone, Copy, Debug, PartialEq, Eq, Hash, Serialize, Deserialize)]
@@ -201,6 +203,7 @@ struct St {
 }
 
 pub struct World {
+    q0_done: Cell<bool>,
     cfg: CCfg,
     log: Rc<Log>,
     st: RefCell<St>,
@@ -329,6 +332,7 @@ impl World {
             stray_seen: 0,
         };
         Rc::new(World {
+            q0_done: Cell::new(false),
             cfg: cfg.clone(),
             log,
             st: RefCell::new(st),
@@ -391,6 +395,11 @@ impl World {
                 if c.polls >= k {
                     m.push(Ev::ScriptAbandon(i));
                 }
+            }
+            if self.cfg.callers[i].script == Script::AbandonOnceSent
+                && self.core.borrow().wire.iter().any(|m| matches!(m, Msg::Req { payload, .. } if *payload as usize == i))
+            {
+                m.push(Ev::ScriptAbandon(i));
             }
         }
         for (i, c) in st.callers.iter().enumerate() {
@@ -900,6 +909,12 @@ impl World {
                 return;
             }
             if self.core.borrow().blocked() {
+                // everything has settled while the peer is not reading what the client wrote: a
+                // quiescent point of its own (recorded once, before Q1)
+                if !self.q0_done.get() {
+                    self.q0_done.set(true);
+                    self.q_record("Q0");
+                }
                 self.apply(Ev::Drain);
                 continue;
             }
@@ -963,6 +978,7 @@ pub fn execute(cfg: &CCfg, prefix: &[u16], suppress_stray: Option<u32>) -> Exec 
         w.log.push(Rec::N("main_end", vec![]));
         w.free.set(true);
         w.settle();
+        w.q0_done.set(true);
         w.q_record("Q1");
         {
             let r = w.st.borrow_mut().root.take();
@@ -1087,6 +1103,8 @@ pub struct Facts {
     pub panics: Vec<String>,
     pub spin: bool,
     pub horizon: bool,
+    /// first quiescent point reached while the peer was not reading (the client's sink blocked)
+    pub q0: Option<(usize, Vec<i128>)>,
     pub q1: Option<(usize, Vec<i128>)>,
     pub q2: Option<(usize, Vec<i128>)>,
     pub q1c: BTreeMap<usize, (i128, i128)>,
@@ -1167,6 +1185,11 @@ pub fn facts(recs: &[Rec]) -> Facts {
             Rec::S("spin", _) => f.spin = true,
             Rec::S("horizon", _) => f.horizon = true,
             Rec::S("park", _) => f.parks += 1,
+            Rec::N("Q0", v) => {
+                if f.q0.is_none() {
+                    f.q0 = Some((i, v.clone()))
+                }
+            }
             Rec::N("Q1", v) => f.q1 = Some((i, v.clone())),
             Rec::N("Q2", v) => f.q2 = Some((i, v.clone())),
             Rec::N("Q1caller", v) => {
